@@ -102,6 +102,8 @@ class FnSpec:
     cell_types: dict = {}
     assumed: str | None = None      # id of an assumed (library) contract: never verified, listed as trusted
     check_guarantee: bool = True
+    result_owned: str | None = None  # kind ('dict', 'list', ...) of a fresh result nobody else holds: the caller owns it until it escapes
+    frame_rule: bool = False        # discharge invariants after private container writes by the frame lemma (calls.frame_lemmas)
     suspended_invariants: frozenset = frozenset()
     returns_coroutine_ok = False
     properties: tuple = ()          # property ids this contract serves
@@ -269,13 +271,13 @@ class Registry:
 
         def imm(comp):
             def fn(old, new):
-                return z3.ForAll([x], z3.Implies(z3.And(0 <= x, x < old.alloc),
+                return z3.ForAll([x], z3.Implies(x < old.alloc,
                                                  z3.Select(new.heap[comp], x) == z3.Select(old.heap[comp], x)),
                                  patterns=[z3.Select(new.heap[comp], x)])
             return fn
         def imm_cls(cls, f):
             def fn(old, new):
-                return z3.ForAll([x], z3.Implies(z3.And(0 <= x, x < old.alloc, subcls(z3.Select(old.heap["fld:__class__"], x), con(cls))),
+                return z3.ForAll([x], z3.Implies(z3.And(x < old.alloc, subcls(z3.Select(old.heap["fld:__class__"], x), con(cls))),
                                                  z3.Select(new.heap["fld:" + f], x) == z3.Select(old.heap["fld:" + f], x)),
                                  patterns=[z3.Select(new.heap["fld:" + f], x)])
             return fn
